@@ -116,6 +116,16 @@ var fwdKinds = []interface{}{
 	[]interface{}{1, "a", nil}, map[string]int{"a": 1}, struct{ A, b interface{} }{1, "x"}, &inner{1, "s", nil}, [2]bool{true, false},
 }
 
+// sfNumbers: a SafeFormatter that emits numbers through the typed safe methods (they format with the printer's own
+// number formatter, under the flags of the enclosing directive)
+type sfNumbers struct{}
+
+func (sfNumbers) SafeFormat(p redact.SafePrinter, _ rune) {
+	p.SafeInt(7)
+	p.SafeUint(8)
+	p.SafeFloat(2.5)
+}
+
 func judgeFwd(rep *lib.Report, ln fwdLine, haveModel bool) {
 	f := string(ln.F)
 	stars := starArgs(ln.W, ln.P)
@@ -228,7 +238,7 @@ func judgeFwd(rep *lib.Report, ln fwdLine, haveModel bool) {
 	}
 	// ... nor must any other earlier element (the printer changes its flags while printing some kinds, e.g. the
 	// imaginary part of a complex number, and has to put them back)
-	for _, sib := range []interface{}{complex(1, 2), complex64(complex(-1, 0.5)), 1.5, "s", []int{1, 2}, struct{ A int }{1}, nil, true, []byte("b"), redact.Safe(3), redact.Unsafe("u")} {
+	for _, sib := range []interface{}{sfNumbers{}, complex(1, 2), complex64(complex(-1, 0.5)), 1.5, "s", []int{1, 2}, struct{ A int }{1}, nil, true, []byte("b"), redact.Safe(3), redact.Unsafe("u")} {
 		var o4, o1 obs
 		out := string(redact.Sprintf(f, append(append([]interface{}{}, stars...), []interface{}{sib, fProbe{&o4}})...))
 		redact.Sprintf(f, append(append([]interface{}{}, stars...), fProbe{&o1})...)
